@@ -192,8 +192,17 @@ func ZZH_C03_APIDocument() {
 		switch zzvChoice(8) {
 		case 6:
 			// page size/orientation set before content ...
-			zzvAssume(d.SetPageSize(PageSizeA3) == nil)
-			zzvAssume(d.SetPageOrientation(OrientationLandscape) == nil)
+			switch zzvChoice(3) {
+			case 0:
+				zzvAssume(d.SetPageSize(PageSizeA3) == nil)
+				zzvAssume(d.SetPageOrientation(OrientationLandscape) == nil)
+			case 1:
+				// a custom page wider than tall, in landscape
+				zzvAssume(d.SetCustomPageSize(300, 200) == nil)
+				zzvAssume(d.SetPageOrientation(OrientationLandscape) == nil)
+			case 2:
+				zzvAssume(d.SetCustomPageSize(150, 220) == nil)
+			}
 			d.AddParagraph(zzvPrintable(6))
 		case 7:
 			// ... and a header or footer attached after it
@@ -226,7 +235,10 @@ func ZZH_C03_APIDocument() {
 			}
 			t, err := d.AddTable(&TableConfig{Rows: rows, Cols: cols, Width: zzvIntIn(1, 20000), Data: data})
 			zzvAssume(err == nil)
-			switch zzvChoice(3) {
+			switch zzvChoice(4) {
+			case 3:
+				// formatted cell text (the font is set for one script slot only)
+				zzvAssume(t.SetCellFormattedText(0, 1, zzhWord(), zzhFormat()) == nil)
 			case 1:
 				zzvAssume(t.MergeCellsHorizontal(0, 0, 1) == nil)
 			case 2:
